@@ -429,7 +429,22 @@ func checkC02() fw.Check {
 												mode = simnet.FilterEnforce
 											}
 											sc := scenario{tag: fmt.Sprintf("%s dest@%d rep%d noise%v", id, dp, rep, noise), v: v, win: w, b: b, mode: mode,
-												model: func(e *simEnv) *pathModel { return pathFor(e, fm, 1, w, dp, c.Rng, noise) }}
+												model: func(e *simEnv) *pathModel {
+													m := pathFor(e, fm, 1, w, dp, c.Rng, noise)
+													if rep%2 == 1 && !v.Serial && m.dist > 0 {
+														// the destination's replies overtake each other: its answer to the probe that reached it
+														// first (the true distance) arrives after its answers to the next probes
+														dist := m.dist
+														m.destDelayFor = func(ttl int) time.Duration {
+															k := ttl - dist
+															if k > 5 {
+																k = 5
+															}
+															return 420*time.Millisecond - time.Duration(k)*65*time.Millisecond
+														}
+													}
+													return m
+												}}
 											out := runScenario(c, sc)
 											if out == nil {
 												continue
